@@ -52,7 +52,7 @@ def pick_step(rng, pool):
     if op in ("merge", "refines"):
         return op, [ci, cj], [arg_contract(ci), arg_contract(cj)], [i, j]
     if op == "rename":
-        maps = [[rng.choice(names), rng.choice(names + ["fresh1", "fresh2"])] for _ in range(rng.randint(1, 2))]
+        maps = [[rng.choice(names), rng.choice(names + ["fresh1", "fresh2"])] for _ in range(rng.choice([0, 1, 1, 2]))]   # also the empty list
         return op, [ci, maps], [arg_contract(ci), plain(maps)], [i]
     if op == "rename_one":
         # the singular method, called directly on the pool member (rename_variables works on a copy): fresh target, an
